@@ -30,6 +30,11 @@ def main():
                                                      threshold_pairs=pairs)))
         ck.e2('refine-%s-1x2' % e, h_laws.make_laws(dict(entry=e, law='refine', nl=1, nr=2, k=2, kmin=1,
                                                          threshold_pairs=pairs)))
+        if not ovl:
+            ck.e2('transpose-%s-1x1-k4' % e, h_laws.make_laws(dict(entry=e, law='transpose', nl=1, nr=1, k=4, kmin=1,
+                                                                   thresholds=[0.5, 0.67])))
+            ck.e2('refine-%s-1x1-k4' % e, h_laws.make_laws(dict(entry=e, law='refine', nl=1, nr=1, k=4, kmin=1,
+                                                                threshold_pairs=[(0.4, 0.5), (0.5, 0.75)])))
         ck.e2('partition-%s' % e, h_laws.make_laws(dict(entry=e, law='partition', nl=2, nr=2, k=1, kmin=0,
                                                         thresholds=thr)))
     # the edit-distance join: same three laws on symbolic strings (real q-gram tokenizer)
